@@ -254,10 +254,14 @@ func splitmix(x *uint64) uint64 {
 
 // rowBlock is the 4 KiB pattern whose repetition (cut to the row size) is the value of
 // row i of a generated result with the given seed.
-func rowBlock(seed uint64, i int) []byte {
+func rowBlock(seed uint64, i int, need int) []byte {
 	x := seed*0x100000001b3 + uint64(i)*0x9e3779b97f4a7c15 + 1
-	b := make([]byte, blockSize)
-	for k := 0; k < blockSize; k += 8 {
+	n := blockSize
+	if need < n {
+		n = (need + 7) &^ 7
+	}
+	b := make([]byte, n)
+	for k := 0; k < n; k += 8 {
 		binary.LittleEndian.PutUint64(b[k:], splitmix(&x))
 	}
 	return b
@@ -265,7 +269,7 @@ func rowBlock(seed uint64, i int) []byte {
 
 // RowSum is the CRC-32 (IEEE) of the value of row i (size bytes) of a generated result.
 func RowSum(seed uint64, i int, size int) uint32 {
-	blk := rowBlock(seed, i)
+	blk := rowBlock(seed, i, size)
 	h := crc32.NewIEEE()
 	for left := size; left > 0; {
 		n := left
@@ -285,7 +289,7 @@ func (p *pconn) writeGeneratedRow(seed uint64, i int, size int) error {
 	if _, err := sw.Write(hdr); err != nil {
 		return err
 	}
-	blk := rowBlock(seed, i)
+	blk := rowBlock(seed, i, size)
 	for left := size; left > 0; {
 		n := left
 		if n > blockSize {
